@@ -24,7 +24,8 @@ Uniform(n) == {[q \in 1..n |-> f] : f \in Range(Forms)}
 Mixed(n) == IF n >= 2 THEN {[q \in 1..n |-> IF q = 1 THEN "origin_wild" ELSE IF q = 2 THEN "xpub_path" ELSE "xpub_wild"],
                             [q \in 1..n |-> IF q = 1 THEN "single" ELSE "multipath2"]}
             ELSE {}
-QuickForms(n) == {[q \in 1..n |-> f] : f \in {"single", "origin_wild", "multipath2"}} \cup Mixed(n)
+\* single-key outputs see every key form also in the quick tier
+QuickForms(n) == IF n = 1 THEN Uniform(n) ELSE {[q \in 1..n |-> f] : f \in {"single", "origin_wild", "multipath2"}} \cup Mixed(n)
 
 FormTuples(n) == IF Tier = "quick" THEN QuickForms(n) ELSE Uniform(n) \cup Mixed(n)
 
